@@ -194,6 +194,8 @@ pub mod encode;
 pub mod filter;
 #[cfg(feature = "console_writer")]
 mod priv_io;
+#[cfg(log4rs_verif)]
+pub mod verif_hooks;
 
 pub use config::{init_config, Config};
 
